@@ -102,7 +102,8 @@ fn gen_reply_single(rng: &mut Rng, other: u16) -> Reply {
         0..=3 => Reply::Echo(gen_echo_mutation(rng)),
         4 | 5 => Reply::Silent,
         6 => {
-            let bit = *rng.pick(&[0x01u8, 0x02, 0x04]);
+            // (one rejection reason, or several at once)
+            let bit = *rng.pick(&[0x01u8, 0x02, 0x04, 0x03, 0x05, 0x06, 0x07]);
             if rng.chance(1, 3) {
                 // the rejection also asks for a confirmation
                 Reply::IinCon(0, bit)
